@@ -13,7 +13,7 @@ TRUSTED = [
     "runtime behaviour of extreme durations on real sockets / ureq is exercised here only through set_read_timeout / set_write_timeout (partial)",
 ]
 RULE = ("(read, write, connect) in {None, 0, 1 ns, 1 ms, 1 s, u64::MAX s}^3 x retries in {0, 1, 2, usize::MAX-1, usize::MAX} x construction path {new, Default, clap flags, serde}, "
-        "clap flag texts from {absent, 0, 00, +0, 1, +7, 4, 18446744073709551615, 18446744073709551616, empty, x, 1.5, ' 3'}; each accepted setting is then used for a Valve query on a valid reply script, six accepted settings with nanosecond / largest durations and the largest retry counts also for Unreal 2 (three gather settings), Quake 3 and GameSpy 1 / 2 / 3 queries on valid reply scripts, those with an extreme duration also by an HTTP-based query (Eco) against a closed port "
+        "clap flag texts from {absent, 0, 00, +0, 1, +7, 4, 18446744073709551615, 18446744073709551616, empty, x, 1.5, ' 3'}; each accepted setting is then used for a Valve query on a valid reply script, six accepted settings with nanosecond / largest durations and the largest retry counts also for Unreal 2 (three gather settings), Quake 3, GameSpy 1 / 2 / 3 and the single-game queries (FFOW, Savage 2, JC2-MP, Mindustry, The Ship, Battalion 1944) on valid reply scripts, those with an extreme duration also by an HTTP-based query (Eco) against a closed port "
         "(and, for small retry counts, on a silent one; for the largest counts also on a script whose first attempt times out or fails to send); non-trivial = a zero duration or an extreme value is involved; distinct by case bytes")
 
 DURS = [None, (0, 0), (0, 1), (0, 1000000), (1, 0), (18446744073709551615, 0), (18446744073709551615, 999999999)]
@@ -133,6 +133,14 @@ def other_protocol_rows(tier, rng):
         for sp in gs_specs(ver, seeds):
             if sp["fits"]:
                 rows.append(("gamespy%d" % ver, lambda ts, sp=sp, ver=ver: gs_case(ver, 7777, 0, ts, sp["events"])))
+    # the single-game protocols (FFOW, Savage 2, JC2-MP, Mindustry, The Ship, Battalion 1944): harness family 50
+    names = {0: "ffow", 1: "savage2", 2: "jc2m", 3: "mindustry", 4: "theship", 5: "battalion1944"}
+    outs = run_model([(bytes([150, g]) + x.to_bytes(8, "big")).hex() for g in range(6) for x in seeds[:2]])
+    for (g, x), o in zip([(g, x) for g in range(6) for x in seeds[:2]], outs):
+        head = o.split("|")[0]
+        evs = [bytes.fromhex(h) for h in head.split(",")] if head else []
+        if evs and (g < 4 or o.split("|")[1].startswith("Ok(")):
+            rows.append(("game-" + names[g], lambda ts, g=g, evs=evs: (bytes([50, g]) + (5000).to_bytes(2, "big") + enc_ts(ts) + enc_events(evs) + b"\x00\x00\x00").hex()))
     for i, (proto, mk) in enumerate(rows):
         for j, ts in enumerate(EXTREME_TS):
             out.append({"id": "proto/%s/%d/%d" % (proto, i, j), "hex": mk(ts),
